@@ -42,7 +42,7 @@ GetRange(len, a, b)  == IF a <= b /\ b <= len THEN Some(Norm(Win(a, b - a))) ELS
 SliceFrom(len, a)    == IF a <= len THEN Norm(Win(a, len - a)) ELSE Empty
 SliceUpTo(len, b)    == IF b <= len THEN Norm(Win(0, b)) ELSE Whole(len)
 \* documented: end beyond the length is the length; start beyond (the clamped) end gives the empty slice
-SliceRange(len, a, b) == LET e == Min(b, len) IN IF a <= e THEN Norm(Win(a, e - a)) ELSE Empty
+SliceRange(len, a, b) == LET e == MinOf(b, len) IN IF a <= e THEN Norm(Win(a, e - a)) ELSE Empty
 SplitAt(len, at)     == IF at <= len THEN <<Norm(Win(0, at)), Norm(Win(at, len - at))>> ELSE <<Whole(len), Empty>>
 Get(len, i)          == IF i < len THEN Some(i) ELSE None
 \* chunk views: number of arrays, window of the arrays, window of the remainder
